@@ -83,6 +83,15 @@ def _models(tier):
       feature_configs=[_fc('a', monotonicity='increasing', nk=nk), _fc('b', nk=nk), _fc('c', monotonicity='decreasing', nk=nk)],
       lattices=[['a', 'b'], ['b', 'c']], use_linear_combination=True, use_bias=True, output_initialization=[0.0, 1.0])),
             [('a', 'increasing'), ('c', 'decreasing')], None))
+  M.append(('ensemble-linear-combination-upper-bound', lambda: P.CalibratedLatticeEnsemble(C.CalibratedLatticeEnsembleConfig(
+      feature_configs=[_fc('a', monotonicity='increasing', nk=nk), _fc('b', nk=nk), _fc('c', monotonicity='decreasing', nk=nk)],
+      lattices=[['a', 'b'], ['b', 'c']], use_linear_combination=True, use_bias=False, output_max=1.0, output_initialization=[0.0, 1.0])),
+            [('a', 'increasing'), ('c', 'decreasing')], (None, 1.0)))
+  M.append(('ensemble-linear-combination-bounded', lambda: P.CalibratedLatticeEnsemble(C.CalibratedLatticeEnsembleConfig(
+      feature_configs=[_fc('a', monotonicity='increasing', nk=nk), _fc('b', nk=nk)],
+      lattices=[['a', 'b'], ['b', 'a']], use_linear_combination=True, use_bias=False, output_min=-1.0, output_max=2.0,
+      output_initialization=[-1.0, 2.0])),
+            [('a', 'increasing')], (-1.0, 2.0)))
   M.append(('ensemble-rtl-unconstrained-first', lambda: P.CalibratedLatticeEnsemble(C.CalibratedLatticeEnsembleConfig(
       feature_configs=[_fc('c', nk=nk), _fc('a', monotonicity='increasing', nk=nk), _fc('b', monotonicity='decreasing', nk=nk)],
       lattices='rtl_layer', num_lattices=2, lattice_rank=2, random_seed=4, output_min=0.0, output_max=1.0, output_initialization=[0.0, 1.0])),
@@ -148,7 +157,8 @@ def constraint_predicates(var, val):
     q = dict(mono=mono, mdom=[list(t) for t in (con.monotonic_dominances or [])], rdom=[], imin=[None] * len(mono), imax=[None] * len(mono))
     cons = specs.holds(c06.lin_cons(val, q))
     if con.normalization_order == 1:
-      cons += [sym.EQ(t, 1) for t in c06.norm_terms(val, 1)]
+      # unit L1 norm per unit, or the all-zero column the constraint leaves alone (norm below its epsilon)
+      cons += [z3.Or(sym.EQ(t, 1), sym.EQ(t, 0)) for t in c06.norm_terms(val, 1)]
     return cons, name
   if name == 'CategoricalCalibrationConstraints':
     q = dict(pairs=[list(t) for t in (con.monotonicities or [])], omin=con.output_min, omax=con.output_max)
@@ -287,7 +297,8 @@ def case_model(**p):
                  sym.b(bad), witness=w2, timeout=tmo, sig=dict(query='monotone', model=label, feature=feat),
                  replay=dict(fn='model', params=p, feature=feat, var_names=var_names), required=p.get('required', True))
       if bounds is not None and gi == 0:
-        bb = [sym.s_cmp('lt', o[0], Fraction(bounds[0])), sym.s_cmp('gt', o[0], Fraction(bounds[1]))]
+        bb = ([sym.s_cmp('lt', o[0], Fraction(bounds[0]))] if bounds[0] is not None else []) + \
+             ([sym.s_cmp('gt', o[0], Fraction(bounds[1]))] if bounds[1] is not None else [])
         case.solve('model-output-within-bounds[%s%s]' % ('' if not combo else 'cat=%s' % list(combo), ptag), core.any_of(bb), witness=w2, timeout=tmo,
                    sig=dict(query='bounds', model=label), replay=dict(fn='model', params=p, feature=None, var_names=var_names), required=p.get('required', True))
     # sabotage twin: without the weight assumptions the goal is violable
@@ -348,7 +359,7 @@ def replay(r):
   out = model(xs).numpy().astype(np.float64).reshape(2)
   tol = 1e-4 * max(1.0, float(np.max(np.abs(out))))
   if rp['feature'] is None:
-    bad = bool(out[0] < bounds[0] - tol or out[0] > bounds[1] + tol)
+    bad = bool((bounds[0] is not None and out[0] < bounds[0] - tol) or (bounds[1] is not None and out[0] > bounds[1] + tol))
   else:
     goal = [g for f, g in goals if f == rp['feature']][0]
     sgn = -1 if goal == 'decreasing' else 1
@@ -361,6 +372,7 @@ def cases(tier, seed):
   out = []
   for m in _models(tier):
     hard = m[0] in ('calibrated-lattice-kfl', 'ensemble-rtl', 'ensemble-rtl-unconstrained-first', 'ensemble-explicit', 'ensemble-linear-combination',
+                    'ensemble-linear-combination-upper-bound', 'ensemble-linear-combination-bounded',
                     'calibrated-lattice-output-calibration')
     out.append(dict(name=m[0], fn='case_model', params=dict(name=m[0], model=m[0], tier=tier, required=not hard, split=False,
                                                             timeout=(40 if hard else 90) if tier == 'quick' else 300),
